@@ -79,6 +79,10 @@ def run(ctx):
         s_["srv"] = (k % (2 if thorough else 5) == 0) or k >= ngen
         # in every third history with answered pings the datagram peer answers with an empty ACK instead of a RST
         s_["ackPong"] = s_.pop("ackPongDirected", k % 3 == 1 and any(e["e"] == "pong" for e in s_["events"]))
+    # every second history without keep-alive: the stream peer's bytes never end on a message boundary
+    for k, s_ in enumerate(stim):
+        s_["pipelined"] = (not s_["keepAlive"]) and k % 2 == 0
+    ctx.cov["histories_with_pipelined_stream_bytes"] = sum(1 for s_ in stim if s_["pipelined"])
     ctx.cov["histories_with_pings_answered_by_ack"] = sum(1 for s_ in stim if s_["ackPong"])
     spath = os.path.join(ctx.work, "stimuli.ndjson")
     vf.write_ndjson(spath, stim)
